@@ -592,6 +592,8 @@ type FuncContract struct {
 	Loops      map[int]*LoopSpec
 	Covers     []*Clause
 	Cuts       []*CutSpec
+	Uses       []*Clause // lemma instantiations assumed at every return
+	Callbacks  []string // function-typed parameters whose calls have no modelled effect (assumption)
 	File       string
 	Line       int
 	Structural []StructClause
@@ -647,6 +649,21 @@ type File struct {
 	Axioms      []*Axiom
 	Guarded     []GuardSpec
 	GlobalInvs  []*Clause
+	Lemmas      []*LemmaDef
+}
+
+// LemmaDef: a named, closed fact over spec functions, proved once (optionally by induction on one integer
+// parameter) and instantiated explicitly with `use name(args)` clauses.
+type LemmaDef struct {
+	Name   string
+	Params []Param
+	Induct string // parameter name ("" = direct proof)
+	From   Expr   // lower bound of the induction variable
+	Body   Expr
+	Props  []string
+	Src    string
+	File   string
+	Line   int
 }
 
 type GuardSpec struct {
@@ -660,7 +677,7 @@ type GuardSpec struct {
 var clauseKeywords = map[string]bool{
 	"func": true, "props": true, "trusted": true, "pure": true, "ghost": true, "requires": true, "ensures": true,
 	"assigns": true, "may_panic": true, "loop": true, "axiom": true, "lemma": true, "ghostfield": true, "cover": true,
-	"cut": true, "structural": true, "inline": true, "guarded_by": true, "hint": true, "spec": true, "globalinv": true,
+	"use": true, "callback": true, "cut": true, "structural": true, "inline": true, "guarded_by": true, "hint": true, "spec": true, "globalinv": true,
 }
 
 // splitLabel parses an optional "[P1,P2:label]" prefix.
@@ -856,6 +873,17 @@ func ParseFile(path string) (*File, error) {
 				}
 				cur.Assigns = append(cur.Assigns, es...)
 			}
+		case "use":
+			c, err := mkClause(rest, rl.line)
+			if err != nil {
+				return nil, err
+			}
+			cur.Uses = append(cur.Uses, c)
+		case "callback":
+			fs := strings.Fields(rest)
+			if len(fs) >= 1 {
+				cur.Callbacks = append(cur.Callbacks, fs[0])
+			}
 		case "cut":
 			// cut <label> after <callee>#<n> invariant [..] expr
 			parts := strings.SplitN(rest, " ", 5)
@@ -914,6 +942,14 @@ func ParseFile(path string) (*File, error) {
 				return nil, fmt.Errorf("%s:%d: bad loop clause kind %q", path, rl.line, parts[1])
 			}
 		case "axiom", "lemma":
+			if kw == "lemma" {
+				if ld, ok, err := parseLemmaDef(rest, path, rl.line); err != nil {
+					return nil, err
+				} else if ok {
+					f.Lemmas = append(f.Lemmas, ld)
+					continue
+				}
+			}
 			ind := ""
 			if strings.HasPrefix(rest, "induction ") {
 				r2 := strings.TrimPrefix(rest, "induction ")
@@ -1046,4 +1082,48 @@ func parseSpecFunc(src, path string, line int) (*SpecFunc, error) {
 		return nil, fmt.Errorf("%s:%d: trailing tokens in spec func", path, line)
 	}
 	return sf, nil
+}
+
+// parseLemmaDef parses `[props:label] name(params) [induction v from lo] = body`.
+func parseLemmaDef(rest, path string, line int) (*LemmaDef, bool, error) {
+	props, _, src := splitLabel(rest)
+	eq := strings.Index(src, " = ")
+	if eq < 0 || !strings.Contains(src[:eq], "(") {
+		return nil, false, nil
+	}
+	head, body := src[:eq], src[eq+3:]
+	ld := &LemmaDef{Props: props, Src: src, File: path, Line: line}
+	if k := strings.Index(head, " induction "); k >= 0 {
+		ind := strings.Fields(head[k+len(" induction "):])
+		head = head[:k]
+		if len(ind) >= 1 {
+			ld.Induct = ind[0]
+		}
+		lo := "0"
+		if len(ind) >= 3 && ind[1] == "from" {
+			lo = strings.Join(ind[2:], " ")
+		}
+		e, err := ParseExpr(lo)
+		if err != nil {
+			return nil, false, fmt.Errorf("%s:%d: %v", path, line, err)
+		}
+		ld.From = e
+	}
+	op := strings.Index(head, "(")
+	cp := strings.LastIndex(head, ")")
+	if op < 0 || cp < op {
+		return nil, false, nil
+	}
+	ld.Name = strings.TrimSpace(head[:op])
+	ps, err := parseParams(head[op+1 : cp])
+	if err != nil {
+		return nil, false, fmt.Errorf("%s:%d: %v", path, line, err)
+	}
+	ld.Params = ps
+	e, err := ParseExpr(body)
+	if err != nil {
+		return nil, false, fmt.Errorf("%s:%d: %v", path, line, err)
+	}
+	ld.Body = e
+	return ld, true, nil
 }
